@@ -21,7 +21,7 @@ TIERS = {
 REQUIRED_PROBES = {
     "quick": ["probe.recentring_checked", "probe.orthogonality_checked", "probe.recentring_nonzero_shift"],
     "thorough": ["probe.recentring_checked", "probe.orthogonality_checked", "probe.recentring_nonzero_shift", "probe.joint_event_likelihood_checked",
-                 "probe.orthogonality_after_tail_proposal", "probe.kind.linear", "probe.kind.logistic", "probe.kind.joint", "probe.kind.shared_speed_logistic"],
+                 "probe.orthogonality_after_tail_proposal", "probe.kind.linear", "probe.kind.logistic", "probe.kind.joint", "probe.kind.shared_speed_logistic", "probe.extreme_population_values"],
 }
 DESCRIBE = {
     "rule": "one case = one whole real fit (2-30 iterations) of a model kind with the re-centring step (logistic, linear, joint; with / without sources) or with a mixing "
@@ -32,16 +32,27 @@ DESCRIBE = {
     "distinct_measure": "digest of (model kind, cohort shape, n_iter, sampler, decisions, proposal faults)",
     "real": ["RiemanianManifoldModel / JointModel._center_xi_realizations", "utils.linalg.compute_orthonormal_basis, mixing_matrix / space_shifts definitions", "TensorMcmcSaemAlgorithm run loop, samplers, State"],
     "stub": ["randn / rand / shuffle served", "clock virtual", "stdout captured"],
-    "assumptions": ["gauge invariance within rtol 1e-4 / atol 2e-5 (float32: exp(xi - m) * exp(log_v0 + m) is not bit-identical)", "orthogonality relative to the norms <= 2e-5",
+    "assumptions": ["gauge invariance within rtol 3e-4 / atol 5e-5*max(1,|x|) (float32: exp(xi - m) * exp(log_v0 + m) is not bit-identical)", "orthogonality relative to the norms <= 2e-5",
                     "mixture model excluded (quick)"],
 }
 KINDS = ["logistic_scalar", "logistic_diag", "logistic_diag_nosrc", "logistic_uni", "logistic_binary", "linear_diag", "linear_scalar", "linear_uni",
-         "joint_uni", "joint_multi", "joint_nosrc", "shared_speed"]
+         "joint_uni", "joint_multi", "joint_nosrc", "shared_speed", "mixture"]
 
 
 def make_plan(seed: int, tier: str) -> dict:
     rng = SimRng(seed)
     st = rng.stream("plan")
+    if st.bernoulli(0.3):
+        # "for any population values": jumps of O(1..8) on log-positions / log-velocities / shifts / mixing coefficients
+        # (one coordinate at a time) assigned to the real model state; orthogonality of the derived mixing matrix checked after each
+        from . import stepsim
+
+        wcfg = stepsim.gen_world_cfg(rng.stream("world"), kinds=["logistic_scalar", "logistic_diag", "linear_diag", "joint_multi", "shared_speed", "logistic_binary"])
+        wcfg["sampler_pop"] = st.choice(["Gibbs", "Gibbs", "FastGibbs"])
+        wcfg["nf"] = st.choice([3, 4])
+        steps = [{"sel": st.randint(0, 7), "prefer": st.weighted([("position", 6), ("velocity", 3), ("any", 2)]), "ind": False, "t_inv": 1.0, "proposal": "huge",
+                  "huge_scale": st.choice([200.0, 600.0, 1500.0]), "decision": "accept", "foreign": "none", "order": "seeded"} for _ in range(st.randint(4, 12))]
+        return {"seed": seed, "tier": tier, "engine": "fitsim_c10", "type": "population_values", "world": wcfg, "steps": steps}
     cfg = fitsim.gen_fit_cfg(rng.stream("world"), kinds=KINDS, max_iter=10 if tier == "quick" else 30)
     pf = {}
     for k in range(1, cfg["n_iter"] + 1):
@@ -92,7 +103,7 @@ class C10Monitor(fitsim.Monitor):
             x, y = b[key].double(), a[key].double()
             fin = torch.isfinite(x) & torch.isfinite(y)
             scale = float(x[fin].abs().max()) if fin.any() else 1.0
-            if x.shape != y.shape or not torch.allclose(x[fin], y[fin], rtol=1e-4, atol=2e-5 * max(1.0, scale)) or not torch.equal(torch.isfinite(x), torch.isfinite(y)):
+            if x.shape != y.shape or not torch.allclose(x[fin], y[fin], rtol=3e-4, atol=5e-5 * max(1.0, scale)) or not torch.equal(torch.isfinite(x), torch.isfinite(y)):
                 d = float((x[fin] - y[fin]).abs().max()) if fin.any() else float("nan")
                 violation(out, "gauge_invariance", f"{key}_changed_by_recentring:{self.info['family']}", f"{where}: max |delta| = {d:.3g} (mean xi removed = {shift:.4g})")
         m = float(a["xi"].mean())
@@ -141,12 +152,95 @@ class C10Monitor(fitsim.Monitor):
         self._ortho(w, k, "after_mstep")
 
 
+def run_population_values(plan, out, log):
+    import warnings
+
+    from . import stepsim
+
+    C = out["counters"]
+    cfg = plan["world"]
+    info = workload.kind_info(cfg["kind"])
+    ref = rm.info_for_kind(info)
+    try:
+        world = stepsim.StepWorld(cfg, log, C)
+    except Exception as e:
+        out["discarded"] = f"setup:{type(e).__name__}"
+        return
+    extreme = 0
+    with warnings.catch_warnings():
+        warnings.simplefilter("ignore")
+        for si, step in enumerate(plan["steps"]):
+            pref = {"position": ["log_g", "g", "deltas"], "velocity": ["log_v0"], "any": world.pop_names}[step.get("prefer", "any")]
+            pool = [nm for nm in world.pop_names if nm in pref] or world.pop_names
+            var = pool[step["sel"] % len(pool)]
+            s = world.state
+            # a jump of O(1..8) on one coordinate, assigned through the public state API (a proposal that bad would never be
+            # accepted by the sampler: its acceptance ratio underflows to 0, so acceptance cannot be forced through the uniform)
+            from ..core.rng import Stream
+
+            jst = Stream(cfg["gseed"], "jump", si)
+            cur = s[var]
+            flat = cur.clone().reshape(-1)
+            j = jst.randint(0, flat.numel() - 1)
+            flat[j] = flat[j] + float(jst.choice([-1, 1, 1]) * jst.uniform(1.0, 8.0)) * (0.3 if var == "betas" else 1.0)
+            try:
+                s[var] = flat.reshape(cur.shape)
+                C["fault.population_jump"] += 1
+            except Exception as e:
+                C["abort.assignment:" + type(e).__name__] += 1
+                break
+            pop = {nm: rm.f64(s[nm]) for nm in world.pop_names}
+            # beyond |log-position| ~ 6.5 the float32 metric itself (1 - gamma with gamma = 1 - 3e-5 ...) keeps 2-3 digits: not comparable
+            lp = [np.abs(v).max() for k_, v in pop.items() if k_ in ("log_g", "deltas")]
+            if "log_g" in pop and "deltas" in pop:
+                lp.append(np.abs(pop["log_g"].reshape(-1)[0] - np.concatenate([[0.0], pop["deltas"]])).max())
+            if not all(np.isfinite(v).all() for v in pop.values()) or any(x > 6.5 for x in lp) or any(np.abs(v).max() > 12 for k_, v in pop.items() if k_ == "log_v0"):
+                C["skip.population_values_beyond_float32_conditioning"] += 1
+                break
+            try:
+                geo = ref.geometry(pop)
+                mm = rm.f64(s["mixing_matrix"])
+                ss = rm.f64(s["space_shifts"])
+            except Exception as e:
+                C["abort.geometry:" + type(e).__name__] += 1
+                break
+            gd = geo["g_metric"] * geo["direction"]
+            C["probe.orthogonality_checked"] += 1
+            C["probe.orthogonality_after_tail_proposal"] += 1
+            C[f"probe.kind.{info['family']}"] += 1
+            ratio = np.abs(gd[0]) / (np.linalg.norm(gd) + 1e-300)
+            if ratio < 1e-3 or ratio > 0.999:
+                extreme += 1
+                C["probe.extreme_population_values"] += 1
+            for name, rows in (("mixing_matrix", mm), ("space_shifts", ss)):
+                nr = np.linalg.norm(rows, axis=1)
+                rel = np.abs(rows @ gd) / (nr * np.linalg.norm(gd) + 1e-300)
+                big = nr > 1e-12
+                if not np.isfinite(rows).all():
+                    C["skip.nonfinite_mixing"] += 1
+                    continue
+                if np.any(rel[big] > 1e-3):
+                    violation(out, "orthogonality", f"{name}:not_orthogonal:{info['family']}:after_forced_population_jump",
+                              f"step{si} {var}: max relative inner product {float(rel[big].max()):.3g}; first component of G.v0 / norm = {ratio:.2e}; "
+                              f"population values { {k_: np.round(v, 2).tolist() for k_, v in pop.items() if k_ != 'betas'} }")
+                    return
+    out["nontrivial"] = C["probe.orthogonality_checked"] > 0
+    key = ("popvals", cfg["kind"], cfg["nf"], cfg["sampler_pop"], tuple((s_["sel"], s_["huge_scale"]) for s_ in plan["steps"]))
+    out["keys"].add("run:" + hashlib.sha1(repr(key).encode()).hexdigest()[:16])
+    out["sample"] = {"type": "population_values", "world": {k_: v for k_, v in cfg.items() if k_ != "gseed"}, "steps": plan["steps"][:4]}
+
+
 def run_plan(plan: dict) -> dict:
     from leaspy.exceptions import LeaspyConvergenceError
 
     out = new_outcome(plan)
     log = EventLog()
     torch.set_num_threads(1)
+    if plan.get("type") == "population_values":
+        run_population_values(plan, out, log)
+        out["counters"]["type.population_values"] += 1
+        out["digest"] = log.digest()
+        return out
     cfg = plan["world"]
     mon = C10Monitor(out, cfg)
     try:
@@ -172,6 +266,15 @@ def run_plan(plan: dict) -> dict:
 
 
 def shrink(plan: dict):
+    if plan.get("type") == "population_values":
+        from ..core.driver import ddmin_list
+
+        for cand in ddmin_list(plan["steps"]):
+            if cand:
+                p = dict(plan)
+                p["steps"] = cand
+                yield p
+        return
     w = plan["world"]
     for n in sorted({1, 2, 3, w["n_iter"] // 2, w["n_iter"] - 1}):
         if 1 <= n < w["n_iter"]:
